@@ -21,7 +21,11 @@ const smtHeader = `(set-option :produce-models true)
 (define-fun gomod ((a Int) (b Int)) Int (- a (* b (godiv a b))))
 `
 
-func (o *Oblig) Query() string {
+func (o *Oblig) Query() string { return o.query(false) }
+
+// query: relaxed drops the quantified modelling facts (";axiom" lines). Dropping assumptions is sound for unsat
+// answers and gives the solvers a chance to produce a candidate model, which replay then validates on the real code.
+func (o *Oblig) query(relaxed bool) string {
 	var b strings.Builder
 	b.WriteString(smtHeader)
 	for _, d := range o.prel.decls {
@@ -29,7 +33,7 @@ func (o *Oblig) Query() string {
 		b.WriteByte('\n')
 	}
 	for _, l := range o.prel.body {
-		if o.Kind == "canary" && strings.HasSuffix(l, "; axiom") {
+		if (o.Kind == "canary" || relaxed || o.relaxed) && strings.HasSuffix(l, "; axiom") {
 			continue // quantified axioms make sat unreachable for the solvers; the canary checks everything else
 		}
 		b.WriteString(l)
@@ -122,6 +126,28 @@ func solve(o *Oblig, workdir string, timeoutS int, agree bool) (err error) {
 				break
 			}
 		}
+	}
+	if decided == nil && !o.relaxed && strings.Contains(q, "; axiom") {
+		// second attempt without the quantified modelling facts
+		o.relaxed = true
+		var parts []string
+		for _, r := range outs {
+			parts = append(parts, fmt.Sprintf("%s: %s (%.2fs)", r.solver, r.result, r.secs))
+			o.Time += r.secs
+		}
+		first := strings.Join(parts, "; ")
+		if err := solve(o, workdir, timeoutS, false); err != nil {
+			return err
+		}
+		if o.Result == "sat" {
+			// a candidate model only: the full query stays undecided
+			o.Result = "unknown"
+			o.candidate = true
+			o.Model = "full query undecided (" + first + "); candidate model from the query without quantified modelling facts:\n" + o.Model
+		} else if o.Result == "unsat" {
+			o.Solver += "(relaxed)"
+		}
+		return nil
 	}
 	if decided == nil {
 		o.Result = "unknown"
